@@ -86,6 +86,13 @@ def gen(r, tier, sub):
                 k = a + 2          # the Run call at which the consumer first runs
                 yield "N 2 D 1:0 ; script 0=%so%so 1=lo ; lose %d=0 ; roots 1" % ("l" * a, "l" * b, k)
                 yield "N 3 D 1:0 2:1 ; script 0=%so%so 1=lo 2=o ; lose %d=0 ; roots 2" % ("l" * a, "l" * b, k)
+        # directed: two concurrent evaluations share a slow task; one of them is abandoned (another of its tasks fails
+        # fatally, or is lost five times) while the shared task still runs: the other must still see it complete
+        for bad in ("e", "lllll", "le"):
+            yield "N 2 ; script 0=s 1=%s ; roots 0,1 | 0" % bad
+            yield "N 3 D 2:0 ; script 0=s 1=%s ; roots 1,2 | 2" % bad
+            yield "N 3 D 2:0 ; script 0=s 1=%s 2=s ; roots 0,1 | 2 | 0" % bad
+            yield "N 4 D 2:0 3:2 ; script 0=s 1=%s ; roots 3,1 | 3" % bad
         n = 600 if tier == "quick" else 12000
         for i in range(n):
             spec, nt, roots = gen_graph(r)
@@ -99,7 +106,9 @@ def gen(r, tier, sub):
                 for t in range(nt):
                     if r.chance(1, 3):
                         k = r.below(10)
-                        if k < 6:
+                        if k < 2:
+                            s = "l" * r.rng(0, 2) + "s"
+                        elif k < 6:
                             s = "l" * r.rng(1, 4) + "o"
                         elif k < 8:
                             s = "l" * r.rng(5, 6) + "o"
@@ -113,6 +122,8 @@ def gen(r, tier, sub):
             rs = ",".join(map(str, roots))
             if r.chance(1, 4):
                 rs += " | " + ",".join(map(str, roots if r.chance(1, 2) else roots[:1]))
+                if r.chance(1, 3):
+                    rs += " | " + str(r.below(nt))
             parts.append("roots " + rs)
             yield " ; ".join(parts)
 
